@@ -189,6 +189,17 @@ def step (s : St) (kind : String) (args impl : List String) : Option (St × Step
 
 def machine : Machine := { σ := St, name := "pr", init := init, step := step }
 
+/-- Machines `prc` (concurrent goroutines on one Manager) and `prd` (the dispatcher's call sites)
+carry no model replay: the harness judges the implementation with the property's own predicates
+(`propfail` records: over-pipeline, duplicate-request, cleared-peer-reported) and reports what it
+ran as `op <phase> … => <counts>` records, which are accepted as they are. -/
+def echoStep (_ : Unit) (kind : String) (args impl : List String) : Option (Unit × StepOut) :=
+  if kind ≠ "op" then none else
+  some ((), { obs := impl, branch := s!"{args.headD "?"}" })
+
+def concMachine : Machine := { σ := Unit, name := "prc", init := fun _ => some (), step := echoStep }
+def dispMachine : Machine := { σ := Unit, name := "prd", init := fun _ => some (), step := echoStep }
+
 end C15
 
-def main (args : List String) : IO UInt32 := runMachines [C15.machine] args
+def main (args : List String) : IO UInt32 := runMachines [C15.machine, C15.concMachine, C15.dispMachine] args
